@@ -58,7 +58,12 @@ func (f *Filer) Create(info types.SegmentInfo) (types.SegmentWriter, error) {
 		return nil, err
 	}
 
-	return createFile(info, wf, &f.bufPool)
+	w, err := createFile(info, wf, &f.bufPool)
+	if err != nil {
+		wf.Close()
+		return nil, err
+	}
+	return w, nil
 }
 
 // RecoverTail is called on an unsealed segment when re-opening the WAL it will
@@ -74,7 +79,13 @@ func (f *Filer) RecoverTail(info types.SegmentInfo) (types.SegmentWriter, error)
 		return nil, err
 	}
 
-	return recoverFile(info, wf, &f.bufPool)
+	w, err := recoverFile(info, wf, &f.bufPool)
+	if err != nil {
+		// Don't leak the file handle
+		wf.Close()
+		return nil, err
+	}
+	return w, nil
 }
 
 // Open an already sealed segment for reading. Open may validate the file's
@@ -93,6 +104,8 @@ func (f *Filer) Open(info types.SegmentInfo) (types.SegmentReader, error) {
 	var hdr [fileHeaderLen]byte
 
 	if _, err := rf.ReadAt(hdr[:], 0); err != nil {
+		// Don't leak the file handle
+		rf.Close()
 		if errors.Is(err, io.EOF) {
 			// Treat failure to read a header as corruption since a sealed file should
 			// never not have a valid header. (I.e. even if crashes happen it should
@@ -105,10 +118,12 @@ func (f *Filer) Open(info types.SegmentInfo) (types.SegmentReader, error) {
 
 	gotInfo, err := readFileHeader(hdr[:])
 	if err != nil {
+		rf.Close()
 		return nil, err
 	}
 
 	if err := validateFileHeader(*gotInfo, info); err != nil {
+		rf.Close()
 		return nil, err
 	}
 
@@ -183,6 +198,7 @@ func (f *Filer) DumpSegment(baseIndex uint64, ID uint64, after, before uint64, f
 	if err != nil {
 		return err
 	}
+	defer rf.Close()
 
 	buf := make([]byte, 64*1024)
 	idx := baseIndex
